@@ -105,7 +105,12 @@ def resample(image, target, mapping, shape, order=3, mode='constant',
     """
     if not callable(mapping):
         if type(mapping) is type(()):
-            mapping = from_matvec(*mapping)
+            A, b = mapping
+            A = np.asarray(A)
+            if A.dtype.kind in 'iub':
+                # from_matvec uses A's dtype: keep a fractional b
+                A = A.astype(np.result_type(A.dtype, np.asarray(b).dtype))
+            mapping = from_matvec(A, b)
         # image world to target world mapping
         TW2IW = AffineTransform(target.function_range,
                                 image.coordmap.function_range,
